@@ -148,6 +148,10 @@ impl BoxedUint {
     pub fn from_str_radix_vartime(src: &str, radix: u32) -> Result<Self, DecodeError> {
         let mut dec = VecDecodeByLimb::default();
         encoding::radix_decode_str(src, radix, &mut dec)?;
+        if dec.limbs.is_empty() {
+            // the value zero is represented with one limb, like `BoxedUint::zero()`
+            dec.limbs.push(Limb::ZERO);
+        }
         Ok(Self {
             limbs: dec.limbs.into(),
         })
